@@ -1,14 +1,14 @@
 SPECIFICATION Spec
 CONSTANTS
   NF = 1
-  MaxLen = 14
-  Kinds = {"cc", "modeonly"}
-  MaxHunks = 2
+  MaxLen = 10
+  Kinds = {"sublog", "subshort", "mod", "modeonly", "subdel", "subadd"}
+  MaxHunks = 1
   MaxBody = 2
-  Preamble = FALSE
+  Preamble = TRUE
   MaxConf = 1
   Buf = 1
-  Fixes = {"D1", "D14", "D2", "D18", "D19", "D20", "D21", "D23", "D24", "D25"}
+  Fixes = {"D1", "D14", "D2", "D18", "D19", "D20", "D21", "D23", "D24"}
   ColorOnly = FALSE
   Modes = {}
   ReplayLen = 0
